@@ -237,6 +237,54 @@ class JnpShim:
         return self._real.isnan(a)
 
 
+    def isfinite(self, a):
+        if isinstance(a, SymArr):
+            if a.dtype.kind != "f":
+                return SymArr(SV(np.ones(a.shape, bool), np.bool_))
+            return SymArr(SV(J.vec1(lambda x: z3.Not(z3.Or(z3.fpIsNaN(x), z3.fpIsInf(x))) if is_sym(x) else bool(np.isfinite(x)), a.sv.obj()), np.bool_))
+        return self._real.isfinite(a)
+
+    def isinf(self, a):
+        if isinstance(a, SymArr):
+            if a.dtype.kind != "f":
+                return SymArr(SV(np.zeros(a.shape, bool), np.bool_))
+            return SymArr(SV(J.vec1(lambda x: z3.fpIsInf(x) if is_sym(x) else bool(np.isinf(x)), a.sv.obj()), np.bool_))
+        return self._real.isinf(a)
+
+    def zeros_like(self, a, dtype=None):
+        if isinstance(a, SymArr):
+            dt = np.dtype(dtype) if dtype is not None else a.dtype
+            return SymArr(SV(np.zeros(a.shape, dt), dt))
+        return self._real.zeros_like(a, dtype=dtype)
+
+    def ones_like(self, a, dtype=None):
+        if isinstance(a, SymArr):
+            dt = np.dtype(dtype) if dtype is not None else a.dtype
+            return SymArr(SV(np.ones(a.shape, dt), dt))
+        return self._real.ones_like(a, dtype=dtype)
+
+    def where(self, c, a, b):
+        if isinstance(c, SymArr) or isinstance(a, SymArr) or isinstance(b, SymArr):
+            def arr(x, dt=None):
+                if isinstance(x, SymArr):
+                    return x
+                v = np.asarray(x) if dt is None else np.asarray(x, dt)
+                return SymArr(SV(v, v.dtype))
+            c = arr(c, np.bool_)
+            dt = a.dtype if isinstance(a, SymArr) else (b.dtype if isinstance(b, SymArr) else np.result_type(np.asarray(a), np.asarray(b)))
+            a, b = arr(a, dt), arr(b, dt)
+            if a.dtype != dt:
+                a = a.astype(dt)
+            if b.dtype != dt:
+                b = b.astype(dt)
+            co, ao, bo = np.broadcast_arrays(c.sv.obj(), a.sv.obj(), b.sv.obj())
+            out = np.empty(co.shape, dtype=object)
+            for i in np.ndindex(*co.shape):
+                out[i] = J.ite(co[i], ao[i], bo[i], dt) if is_sym(co[i]) else (ao[i] if co[i] else bo[i])
+            return SymArr(SV(out, dt))
+        return self._real.where(c, a, b)
+
+
 F64 = z3.Float64()
 
 
